@@ -128,6 +128,9 @@ def main():
     for (op, gk), tvs in sorted(groups.items()):
         run.sample({"op": op, "group": gk, "args": tvs[len(tvs) // 2]["a"]}, limit=8)
         replay_group(run, cache, op, gk, tvs)
+    from harness import liechain
+    chains = liechain.run_chains(run, tier)
+    n += chains["steps"]
     need_groups = {"SO2", "SE2", "R2", "R3", "SO3quat", "SO3mrp", "SO3dcm", "SO3euler", "SE3quat", "SE3mrp",
                    "SE23quat", "SE23mrp"}
     seen = {gk for (_, gk) in groups}
@@ -144,6 +147,7 @@ def main():
         "distinct_nontrivial": n - len([1 for (op, _), t in groups.items() if op == "mat" for _ in t]),
         "rule": "one TLC state = (operation, operands, exact expected matrix); non-trivial = any operation other than the bare to_Matrix pin",
         "per_group_op": {f"{gk}/{op}": len(t) for (op, gk), t in sorted(groups.items())},
+        "chains": chains,
         "exhaustive": True,
     })
 
